@@ -15,6 +15,8 @@ RULE = ("Generated: state type (3) x n 1..3 (thorough: ..4) x nh 1..4 x na 1..3,
         "flattened in rbm.parameters() order. Oracle B: batch positive phase = mean of 1-D per-row gradients = invariant under "
         "permutation and weighted split. Oracle C: every public gradient method is callable and agrees. Non-trivial = "
         "(complex/density) >= 2 distinct bases one containing Y, or (positive) >= 2 distinct rows; all biases non-zero.")
+RULE_EXT = ('Extended as built: single-basis batches of 100-300 rows, n = 8, 9 states, polarised parameter regimes with rare outcomes (rows excluded only by conditioning |sum terms|/sum|terms| < 1e-6, counted), bases passed as ndarray / list / str, gradients re-evaluated along an in-place history A -> B -> A, deprecated aliases.')
+RULE = RULE + " " + RULE_EXT
 ASSUMPTIONS = ["parameter scale <= 2 (the gradient of -log p is ill-conditioned where p ~ 0)",
                "tolerance |g - g_ref| <= 1e-6*(1+max|g_ref|)", "CPU, float64"]
 
